@@ -136,7 +136,13 @@ def _muladd_case(ctx, c, P, Q, a, b, kind_p, kind_q, order, ordP, ordQ, enum):
     ctx.ev()
     try:
         A = _mk_operand(cf, c, P, kind_p, order)
-        B = INFINITY if Q is None else _mk_operand(cf, c, Q, kind_q, order)
+        if Q is None and kind_q == "z0":
+            B = PointJacobi(cf, 4 % p, 8 % p, 0, order)           # the identity in Jacobian form
+        elif Q is None and kind_q == "infcopy":
+            import pickle
+            B = pickle.loads(pickle.dumps(INFINITY))
+        else:
+            B = INFINITY if Q is None else _mk_operand(cf, c, Q, kind_q, order)
         if A is None or B is None:
             ctx.event("rep-unavailable")
             return
@@ -206,12 +212,15 @@ def sweep_muladd(ctx, c, full_b, pmod=1, pres=0):
                 combos += [("gen", "gen", L), ("gen", "plain", L), ("plain", "legacy", None), ("plain", "gen", L),
                            ("genz", "plain", L), ("plain", "genz", L), ("genz", "genz", L),
                            ("plain-noorder", "gen", L), ("plain-noorder", "genz", L), ("gen", "plain-noorder", L)]
+            if Q is None:
+                combos += [("plain", "z0", None), ("gen", "z0", L), ("plain", "infcopy", L), ("genz", "z0", L)]
             for kp, kq, order in combos:
+                kq_ = kq if (Q is not None or kq in ("z0", "infcopy")) else "plain"
                 for a in arange:
                     for b in brange:
-                        _muladd_case(ctx, c, P, Q, a, b, kp, kq if Q is not None else "plain", order, oP, oQ, True)
+                        _muladd_case(ctx, c, P, Q, a, b, kp, kq_, order, oP, oQ, True)
                 for a, b in huge:
-                    _muladd_case(ctx, c, P, Q, a, b, kp, kq if Q is not None else "plain", order, oP, oQ, False)
+                    _muladd_case(ctx, c, P, Q, a, b, kp, kq_, order, oP, oQ, False)
 
 
 # ---------------------------------------------------------------- production curves
